@@ -1363,7 +1363,7 @@ def viscosity(T, P, mass, Mol_wt, Pc, Tc, Vc, omega, delta, Aij,
     Pc_mix = 8. * numerator / denominator**2
     
     # Get the density of methane at TTc0/Tc_mix and PPc0/Pc_mix
-    rho0 = density(T * Tc0 / Tc_mix, P * Pc0 / Pc_mix, 
+    rho0 = density(T * Tc0[0] / Tc_mix, P * Pc0[0] / Pc_mix, 
         np.array([1.]), M0, Pc0, Tc0, Vc0, omega0, delta0, Aij, Bij,
         delta_groups0, -1, C_pen, C_pen_T)
     
